@@ -1157,6 +1157,9 @@ func (ex *Exec) convert(st *State, v *Val, to types.Type, pos token.Pos) *Val {
 		return &Val{Sh: toSh, T: to, S: v.kid("ref").S}
 	}
 	if toSh.IsLeaf() && toSh.Leaf == "Int" && isRefType(to) {
+		if bv := ex.boxScalar(v); bv != "" {
+			return &Val{Sh: toSh, T: to, S: bv}
+		}
 		// value boxed into a non-empty interface: an opaque non-nil reference
 		r := ex.freshVal(to, "boxed")
 		st.assume("(< 0 " + r.S + ")")
@@ -1701,6 +1704,11 @@ func (ex *Exec) typeAssert(st *State, x *Val, to types.Type) (*Val, string) {
 			return &Val{Sh: tsh, T: to, S: x.kid("s").S}, okc
 		}
 		return ex.freshVal(to, "ta"), okc
+	}
+	// non-empty interface to a scalar concrete type: unbox
+	if tsh := ex.eng.sh.shapeOf(to); x.Sh != nil && x.Sh.IsLeaf() && x.Sh.Leaf == "Int" && tsh.IsLeaf() && tsh.Kind != "lift" && !isRefType(to) && (tsh.Leaf == "String" || tsh.Leaf == "Int" || tsh.Leaf == "Bool" || tsh.Leaf == "Real") {
+		_, unbox, is := ex.eng.boxFns(typeID(to), tsh.Leaf)
+		return &Val{Sh: tsh, T: to, S: "(" + unbox + " " + x.S + ")"}, and(not(eq(x.S, "0")), "("+is+" "+x.S+")")
 	}
 	// non-empty interface to concrete: keep the reference, success unknown
 	okb := ex.eng.smt.fresh("taok", "Bool")
